@@ -405,6 +405,7 @@ func checkC16(c *h.Check) {
 	}
 	// ---------- Part 2: configurations ----------
 	confRuns, confs := c16Configurations(c, thorough, viol)
+	confRuns += c16Together(c, viol)
 	c.Coverage["schedules_explored"] = schedules
 	c.Coverage["instrumented_runs"] = runs
 	c.Coverage["configuration_runs"] = confRuns
@@ -414,7 +415,7 @@ func checkC16(c *h.Check) {
 	c.Coverage["traces_validated_against_impl"] = schedules
 	c.Coverage["evaluations"] = runs + confRuns
 	c.Coverage["distinct_nontrivial"] = schedules + confs
-	c.Coverage["rule"] = "Part 1 (schedules = iteration orders): wire is rebuilt from the working tree with every `range` over a Go map (sites listed) and typeutil.Map.Iterate rewritten to follow a schedule file; on import-/value-/injector-rich programs the identity schedule gives the baseline (conformance: the plain binary gives the same bytes; replaying twice gives identical bytes and visit trace); then d=0 global policies (reverse / rotate everywhere, per package), d=1 every visit with >=2 entries under all permutations (n<=3, thorough n<=4) or reversal+rotations(+adjacent transpositions in thorough), d=2 (thorough) all pairs of visits reversed. Every run must give byte-identical wire_gen.go. Part 2 (configurations): layout {module, module+vendor, GOPATH, GOPATH+vendor} x checkout location {two directories, one with a space} x invocation {cwd=package '.', cwd=root './app', import-path pattern, './...'} x {alone, with other packages} x repeat 2: all outputs byte-identical, no scratch path / user / date in the bytes."
+	c.Coverage["rule"] = "Part 1 (schedules = iteration orders): wire is rebuilt from the working tree with every `range` over a Go map (sites listed) and typeutil.Map.Iterate rewritten to follow a schedule file; on import-/value-/injector-rich programs the identity schedule gives the baseline (conformance: the plain binary gives the same bytes; replaying twice gives identical bytes and visit trace); then d=0 global policies (reverse / rotate everywhere, per package), d=1 every visit with >=2 entries under all permutations (n<=3, thorough n<=4) or reversal+rotations(+adjacent transpositions in thorough), d=2 (thorough) all pairs of visits reversed. Every run must give byte-identical wire_gen.go. Part 2 (configurations): layout {module, module+vendor, GOPATH, GOPATH+vendor} x checkout location {two directories, one with a space} x invocation {cwd=package '.', cwd=root './app', import-path pattern, './...'} x {alone, with other packages} x repeat 2, the same under an import path with vendor-like fragments and under a single-element import path; three small packages generated alone and together in every order of the patterns, with and without a short header file: all outputs byte-identical, no scratch path / user / date in the bytes."
 	c.Samples = append(c.Samples, map[string]interface{}{"schedule_example": "wire 12 2 0 1   (visit 12 of package wire iterates its 3 canonically sorted entries in the order 2,0,1)", "sites": siteList})
 	c.Assumptions = append(c.Assumptions, "goroutine scheduling inside go/packages and the go list subprocess are not intercepted; their effect is observed only through the repeated configuration runs", "canonical order of typeutil.Map entries is by types.TypeString (ties keep bucket order)")
 	if schedules < 20 && c.Only == "" {
@@ -497,6 +498,10 @@ func c16Configurations(c *h.Check, thorough bool, viol func(id, sym, detail stri
 	for _, l := range layouts {
 		jobs = append(jobs, job{l, "vendorish"})
 	}
+	// and under a single-element import path (a project rooted directly under $GOPATH/src)
+	for _, l := range layouts {
+		jobs = append(jobs, job{l, "single-elem"})
+	}
 	var wg sync.WaitGroup
 	ch := make(chan job)
 	for w := 0; w < 8; w++ {
@@ -509,8 +514,11 @@ func c16Configurations(c *h.Check, thorough bool, viol func(id, sym, detail stri
 				var env []string
 				files := files
 				modPath := "example.com/m"
-				if j.loc == "vendorish" {
+				if j.loc == "vendorish" || j.loc == "single-elem" {
 					modPath = "example.com/acme-vendor/xvendor/m"
+					if j.loc == "single-elem" {
+						modPath = "shop"
+					}
 					files = map[string]string{}
 					for p, cnt := range richProgram(0) {
 						files[p] = strings.ReplaceAll(cnt, "example.com/m", modPath)
@@ -579,21 +587,29 @@ func c16Configurations(c *h.Check, thorough bool, viol func(id, sym, detail stri
 	close(ch)
 	wg.Wait()
 	sort.Slice(results, func(i, j int) bool { return results[i].id < results[j].id })
-	refs := map[bool]string{}
+	refs := map[string]string{}
+	locClass := func(id string) string {
+		switch {
+		case strings.Contains(id, "loc=9/"): // len("vendorish") == 9
+			return "vendorish"
+		case strings.Contains(id, "loc=11/"): // len("single-elem") == 11
+			return "single-elem"
+		}
+		return ""
+	}
 	for _, r := range results {
 		if strings.Contains(r.id, "layout=module/") && strings.Contains(r.id, "inv=cwd=pkg,.") {
-			v := strings.Contains(r.id, "loc=9/") // len("vendorish") == 9
-			if refs[v] == "" {
+			if v := locClass(r.id); refs[v] == "" {
 				refs[v] = r.out
 			}
 		}
 	}
-	if refs[false] == "" || refs[true] == "" {
+	if refs[""] == "" || refs["vendorish"] == "" || refs["single-elem"] == "" {
 		c.Internalf("no reference output for the configuration matrix")
 		return runs, 0
 	}
 	for _, r := range results {
-		ref := refs[strings.Contains(r.id, "loc=9/")]
+		ref := refs[locClass(r.id)]
 		if r.exit != 0 || r.out == "" {
 			viol(r.id, "config-generation-failed", fmt.Sprintf("generation failed (exit %d) in this configuration although it succeeds in module mode:\n%s", r.exit, clip(r.err, 800)), nil)
 			continue
@@ -606,4 +622,68 @@ func c16Configurations(c *h.Check, thorough bool, viol func(id, sym, detail stri
 		}
 	}
 	return runs, len(results)
+}
+
+// c16Together: several small packages generated one at a time and together in one invocation (every order of the
+// patterns), with and without a short header file: each package's output must not depend on its company.
+func c16Together(c *h.Check, viol func(id, sym, detail string, files map[string]string)) int {
+	files := map[string]string{"hdr.txt": "// Short licence header.\n\n"}
+	names := []string{"alpha", "beta", "gamma"}
+	for i, n := range names {
+		files[n+"/defs.go"] = fmt.Sprintf("package %s\n\ntype T%d struct{ N int }\n\nfunc New%d() T%d { return T%d{N: %d} }\n", n, i, i, i, i, i)
+		files[n+"/wire.go"] = fmt.Sprintf("//go:build wireinject\n// +build wireinject\n\npackage %s\n\nimport \"github.com/google/wire\"\n\nfunc Init%d() T%d {\n\tpanic(wire.Build(New%d))\n}\n", n, i, i, i)
+	}
+	runs := 0
+	for _, hdr := range []bool{false, true} {
+		gen := func(patterns ...string) (map[string]string, h.CmdResult) {
+			d := c.S.Dir("together")
+			defer os.RemoveAll(d)
+			h.WriteFiles(d, h.ModuleFiles("example.com/m"))
+			h.WriteFiles(d, files)
+			argv := []string{c.S.Wire, "gen"}
+			if hdr {
+				argv = append(argv, "-header_file", "hdr.txt")
+			}
+			r := h.RunLimited(d, h.BaseEnv("GOCACHE="+c.S.GoCache), 120e9, h.WireMemKB, append(argv, patterns...)...)
+			runs++
+			out := map[string]string{}
+			for _, n := range names {
+				b, _ := os.ReadFile(filepath.Join(d, n, "wire_gen.go"))
+				out[n] = string(b)
+			}
+			return out, r
+		}
+		alone := map[string]string{}
+		for _, n := range names {
+			o, r := gen("./" + n)
+			if r.Exit != 0 || o[n] == "" {
+				c.Internalf("C16 together: generating %s alone failed: %s", n, r.Stderr)
+				return runs
+			}
+			alone[n] = o[n]
+		}
+		var orders [][]string
+		permutations(3, func(p []int) { orders = append(orders, []string{"./" + names[p[0]], "./" + names[p[1]], "./" + names[p[2]]}) })
+		orders = append(orders, []string{"./..."}, []string{"./alpha", "./beta"}, []string{"./gamma", "./alpha"})
+		for _, pats := range orders {
+			o, r := gen(pats...)
+			id := fmt.Sprintf("C16/together/header=%v/patterns=%s", hdr, strings.Join(pats, ","))
+			if r.Exit != 0 {
+				viol(id, "config-generation-failed", fmt.Sprintf("generation of several packages failed (exit %d) although each succeeds alone:\n%s", r.Exit, clip(r.Stderr, 800)), files)
+				continue
+			}
+			for _, n := range names {
+				named := len(pats) == 1 && pats[0] == "./..."
+				for _, p := range pats {
+					if p == "./"+n {
+						named = true
+					}
+				}
+				if named && o[n] != alone[n] {
+					viol(id, "config-dependent-output", fmt.Sprintf("%s/wire_gen.go differs from what generating the package alone gives:\n%s", n, firstDiff(alone[n], o[n])), files)
+				}
+			}
+		}
+	}
+	return runs
 }
